@@ -107,6 +107,12 @@ def run_model(case, ctx):
             base = mlgen.build_model(cfg, case["i"])
             x = mlgen.random_multi(rng, mlgen.sig_of(cfg["in_sig"]), D, tuple(cfg["N"]), tuple(cfg["torus"]))
             variants = [("fresh", base), ("after-pytree-round-trip", jax.tree_util.tree_map(lambda l: l, base))]
+            if case["kind"] == "model" and case["i"] % 3 == 0 and stable:
+                # the symmetrisation wrapper is a model class too: averaging over C2^d must hand back the same signature
+                import ginjax.models as models
+                from ..ref import group as rgroup
+
+                variants.append(("group-averaged", models.GroupAverage(base, [np.asarray(g) for g in rgroup.subgroups(D)["C2d"]], always_average=True)))
             for vname, model in variants:
                 _trace.log.enabled = True
                 _trace.log.clear()
